@@ -442,7 +442,9 @@ class World:
             for i, (lbl, t) in enumerate(self.stores):
                 if t.contains_cached(key):
                     rec["path"] = f"hit{i}"
-                    rec["src"] = f"{'L1' if i == 0 else 'Ln'}-{self.prov[lbl].get(k, (None, 'unknown'))[1]}"
+                    pv = self.prov[lbl].get(k, (None, "unknown", None))
+                    rec["src"] = f"{'L1' if i == 0 else 'Ln'}-{pv[1]}"
+                    rec["src_op"] = pv[2]
                     if i > 0:
                         self.probe("probe.lower_tier_hit")
                     break
@@ -585,7 +587,7 @@ class World:
                     prov.pop(k, None)
                 else:
                     prev[k] = v
-                    prov[k] = (v, how)
+                    prov[k] = (v, how, seg)
                     if how == "promote":
                         self.probe("probe.promotion")
         wbk = store.stats.writebacks
@@ -711,6 +713,16 @@ class World:
         known = {_wval(w) for w in self.writes[k]} | {self.initial.get(k, ABSENT)}
         what = "never-written" if got not in known else ("lost-write" if got is None else "stale-read")
         after = latest["kind"] if latest is not None else "initial"
+        if self.fam == "mtc" and rec.get("src") == "L1-promote" and latest is not None and rec.get("src_op") is not None:
+            # The stale L1 entry was promoted from a lower-tier hit.  Had the write it is older than already landed in the
+            # backing store when that lower-tier read *started*?  (put()/delete() are supposed to drop the key from every
+            # tier in the step in which their backing-store write lands: a tier read starting later must not find it.)
+            if latest["kind"] == "put":
+                landed = next((e[3] for e in self.timeline[k] if e[1] == latest["value"]), None)
+            else:
+                landed = latest["ret"]
+            if landed is not None and rec["src_op"]["inv"] > landed:
+                rec["src"] = "L1-promote-from-tier-not-invalidated-when-backing-write-landed"
         if rec.get("src") == "fill" and self.fam == "cs":
             bs = self._backing_src(k, got)
             if "regressed" in bs:
